@@ -30,6 +30,7 @@ import (
 	"math/bits"
 	"math/rand"
 	"os"
+	"sort"
 	"strconv"
 	"syscall"
 	"testing"
@@ -597,6 +598,7 @@ func TestVerifC04Random(t *testing.T) {
 	m.enc = json.NewEncoder(w)
 	defer m.install()()
 	flagBits := []int{0, 1, 2, 3, 4, 5, 6, 7, 8, 9, 63} // every declared PageTableEntryFlag bit (7 = FlagHugePage = PAT on a 4K leaf)
+	avlBits := []int{10, 11, 52, 58, 62}                    // undeclared but legal flag bits outside the frame field (software-available / ignored bits)
 	sizes := []uint64{0, 1, 4095, 4096, 4097, 8191, 8192, 8193, 12287, 12288}
 	for tr := 0; tr < ntr; tr++ {
 		u, pages, idrun, window := c04Universe(rng)
@@ -613,6 +615,10 @@ func TestVerifC04Random(t *testing.T) {
 					fl = append(fl, b)
 				}
 			}
+			if rng.Intn(4) == 0 {
+				fl = append(fl, avlBits[rng.Intn(len(avlBits))])
+				sort.Ints(fl)
+			}
 			return fl
 		}
 		fail := func(max int) int {
@@ -627,6 +633,12 @@ func TestVerifC04Random(t *testing.T) {
 				pg = u[rng.Intn(len(u))] // also the temp page, window and identity pages
 			}
 			frame := uint64(rng.Int63n(1 << 40))
+			switch rng.Intn(10) {
+			case 0: // boundary frame numbers of the 40-bit frame field
+				frame = []uint64{0, 1, 1<<40 - 1, 1<<40 - 4, 1 << 39}[rng.Intn(5)]
+			case 1: // a frame that holds one of the page tables themselves (as the temporary mapping of a root does)
+				frame = uint64((m.base >> 12) + uintptr(rng.Intn(m.next)))
+			}
 			pdt := 1 + rng.Intn(len(m.roots))
 			via := "pdt"
 			if pdt == m.activeID() && rng.Intn(2) == 0 {
@@ -662,14 +674,17 @@ func TestVerifC04Random(t *testing.T) {
 				size := sizes[rng.Intn(len(sizes))]
 				n := int((size + 4095) / 4096)
 				if used+n+1 <= window {
+					if frame+uint64(n) > 1<<40 { // the physical range itself must lie below 2^52 bytes
+						frame = 1<<40 - uint64(n)
+					}
 					used += n
-					m.do(c04Op{Op: "mapregion", F: frame, Size: size, Fl: randFlags(), Fail: fail(5)})
+					m.do(c04Op{Op: "mapregion", F: frame, Size: size, Fl: randFlags(), Fail: fail(7)})
 				}
 			case k == 17:
 				size := sizes[rng.Intn(len(sizes))]
 				n := int((size + 4095) / 4096)
 				start := rng.Intn(len(idrun) - n)
-				m.do(c04Op{Op: "identity", F: uint64(idrun[start].page()), Size: size, Fl: randFlags(), Fail: fail(5)})
+				m.do(c04Op{Op: "identity", F: uint64(idrun[start].page()), Size: size, Fl: randFlags(), Fail: fail(7)})
 			case k == 18:
 				if len(m.roots) < 3 {
 					m.do(c04Op{Op: "pdtinit", Fail: fail(3)})
